@@ -1,6 +1,7 @@
 import Hms.Value.Json
 import Hms.Value.Display
 import HmsProofs.Lemmas.ValEq
+import HmsProofs.Lemmas.ValCast
 /-! Lemmas for C13: the two renderers agree; the typed JSON round trip. -/
 namespace HmsProofs.Lemmas.ValJson
 open Hms.Value HmsProofs.Lemmas.ValEq
@@ -73,7 +74,7 @@ theorem marshal_not_null (fi : Dy → Bool) (t : Ty) (x : Val) (j : J) (hr : jso
 /-- what a declared field finds in the marshalled object -/
 theorem marshalFields_lookup (fi : Dy → Bool) : ∀ (fs : Fields) (jfs : JFields),
     marshalFields fi fs = .some jfs → ∀ k x, fs.lookup k = .some x →
-    ∃ j, marshalWith fi x = .some j ∧ (jfs.lookup k).getD .null = j
+    ∃ j, marshalWith fi x = .some j ∧ jfs.lookup k = .some j
   | .nil, _, _, k, x, hl => by simp [Fields.lookup] at hl
   | .cons k' v fs, jfs, h, k, x, hl => by
     simp only [marshalFields] at h
@@ -213,7 +214,7 @@ theorem rt_typed (fi : Dy → Bool) : ∀ (T : Ty), T.wf = true → ∀ (v : Val
       obtain ⟨x, j, v', h1, h2, h3, h4⟩ := hdecl k t ht
       obtain ⟨j', e1, e2⟩ := marshalFields_lookup fi fs jfs hjfs k x h1
       rw [h2] at e1; cases e1
-      exact ⟨x, v', h1, by rw [e2]; exact h3, h4⟩)
+      exact ⟨x, v', h1, by simp [e2, h3], h4⟩)
     have hlen : out.length = fs.length := by
       rw [← keys_length, ← keys_length, g2]
       exact Nat.le_antisymm (length_le_of_nodup_subset _ _ hT.1 hsub2) (length_le_of_nodup_subset _ _ hw.1 hsub1)
@@ -236,5 +237,44 @@ theorem rt_declared (fi : Dy → Bool) : ∀ (tfs : TyFields), tfs.wf = true →
         exact ⟨x, j, v', rfl, h1, h2, h3⟩
     · exact rt_declared fi rest hT.2 fs hw hr.2 k t hm
 end
+
+/-! ### The route a program takes: `to_json`, `parse_json`, annotated `let` -/
+
+open HmsProofs.Lemmas.ValCast in
+/-- per-element statement: marshal, parse untyped, cast without scalar conversions -/
+def RTP (fi : Dy → Bool) (t : Ty) (x : Val) : Prop :=
+  ∀ p : Path, ∃ j v', marshalWith fi x = .some j ∧ castAll false t (unmarshalUntyped j) p = .ok v' ∧ v'.isEqual x = true
+
+theorem isIntegral_ofInt (z : Int) : (Dy.ofInt z).isIntegral = true := by
+  by_cases hz : z = 0 <;> simp [Dy.isIntegral, Dy.ofInt, Dy.norm, hz, Dy.normAux]
+
+theorem untyped_plain (j : J) (h : j.isNull = false) : HmsProofs.Lemmas.ValCast.isPlain (unmarshalUntyped j) = true := by
+  cases j <;> simp [J.isNull] at h <;> simp [unmarshalUntyped, HmsProofs.Lemmas.ValCast.isPlain]
+  rename_i d _
+  by_cases hd : d.isIntegral = true <;> simp [hd]
+
+theorem castAll_opt_plain {t : Ty} {u : Val} {p : Path} (h : HmsProofs.Lemmas.ValCast.isPlain u = true) :
+    castAll false (.opt t) u p = (castAll false t u p).map .some := by
+  cases u <;> simp [HmsProofs.Lemmas.ValCast.isPlain] at h <;> simp [castAll]
+
+theorem untypedFields_lookup : ∀ (jfs : JFields) (k : String),
+    (unmarshalUntypedFields jfs).lookup k = (jfs.lookup k).map unmarshalUntyped
+  | .nil, k => by simp [unmarshalUntypedFields, Fields.lookup, JFields.lookup]
+  | .cons k' j jfs, k => by
+    simp only [unmarshalUntypedFields, Fields.lookup, JFields.lookup]
+    split
+    · simp
+    · exact untypedFields_lookup jfs k
+
+theorem untypedFields_keys : ∀ (fi : Dy → Bool) (fs : Fields) (jfs : JFields), marshalFields fi fs = .some jfs →
+    (unmarshalUntypedFields jfs).keys = fs.keys
+  | fi, .nil, jfs, h => by simp [marshalFields] at h; subst h; simp [unmarshalUntypedFields, Fields.keys]
+  | fi, .cons k v fs, jfs, h => by
+    simp only [marshalFields] at h
+    split at h
+    · rename_i j js hj hjs
+      cases h
+      simp [unmarshalUntypedFields, Fields.keys, untypedFields_keys fi fs js hjs]
+    · cases h
 
 end HmsProofs.Lemmas.ValJson
